@@ -1,9 +1,11 @@
 package main
 
 import (
+	"context"
 	"errors"
 	"fmt"
 	"strings"
+	"time"
 
 	goerrors "github.com/ajitpratap0/GoSQLX/pkg/errors"
 	"github.com/ajitpratap0/GoSQLX/pkg/gosqlx"
@@ -144,6 +146,20 @@ func runC13(c *runCtx) {
 		},
 		"parser.Validate":   func(s string) error { return parser.Validate(s) },
 		"parser.ParseBytes": func(s string) error { _, err := parser.ParseBytes([]byte(s)); return err },
+		"gosqlx.ParseWithContext": func(s string) error { _, err := gosqlx.ParseWithContext(context.Background(), s); return err },
+		"gosqlx.ParseWithTimeout": func(s string) error { _, err := gosqlx.ParseWithTimeout(s, time.Hour); return err },
+		"lowlevel.context": func(s string) error {
+			t := tokenizer.GetTokenizer()
+			defer tokenizer.PutTokenizer(t)
+			toks, err := t.TokenizeContext(context.Background(), []byte(s))
+			if err != nil {
+				return err
+			}
+			p := parser.GetParser()
+			defer parser.PutParser(p)
+			_, err = p.ParseContextFromModelTokens(context.Background(), toks)
+			return err
+		},
 		"lowlevel.positions": func(s string) error {
 			t := tokenizer.GetTokenizer()
 			defer tokenizer.PutTokenizer(t)
@@ -180,6 +196,67 @@ func runC13(c *runCtx) {
 			if err2 == nil || err2.Error() != err.Error() {
 				res.fail("not-reproducible:"+name, "the same input produced a different error on the second call", map[string]any{"entry": name, "input": in},
 					map[string]any{"first": err.Error(), "second": fmt.Sprint(err2)})
+			}
+		}
+	}
+	// the same rejected input after different histories of the pooled instances: same code, message and location,
+	// and a location inside the input (the input is indented so that a stale position would show)
+	histories := []string{"SELECT 1", "\n\n'abc", "SELECT a,\n\tb\nFROM t\nWHERE 'x", "/* c\n\n*/ SELECT `"}
+	for i, in := range inputs {
+		if i%c.n(6, 2) != 0 {
+			continue
+		}
+		for _, pad := range []string{strings.Repeat(" ", 8), strings.Repeat(" ", 90), "\n\n   "} {
+			in2 := pad + in
+			tk, _ := tokenizer.New()
+			_, lexErr := tk.Tokenize([]byte(in2))
+			for _, name := range names {
+				var first string
+				for hi, h := range histories {
+					_ = entries[name](h)
+					err := entries[name](in2)
+					if err == nil {
+						break
+					}
+					if hi == 0 {
+						first = err.Error()
+						res.count("history|"+name+"|"+in2, true)
+					} else if err.Error() != first {
+						res.fail("history-dependent-error:"+name, "the same rejected input gives a different error after a different earlier call", map[string]any{"entry": name, "input": in2, "earlier": h},
+							map[string]any{"after_plain_history": first, "after_this_history": err.Error()})
+					}
+					checkStructured(res, name, in2, err, lexErr != nil)
+				}
+			}
+		}
+	}
+	// a context that turns done at the k-th poll: the context's error stays reachable however deep the construct that
+	// was being parsed re-wraps its operand's error
+	nesting := append([]string{
+		"SELECT a FROM t WHERE a IN (1, 2, (SELECT 3), 4) AND b BETWEEN c + 1 AND (SELECT 9) AND EXISTS (SELECT 1 FROM u WHERE v IN (SELECT w FROM x))",
+		"SELECT CASE WHEN a IN (1, 2) THEN (SELECT 1) WHEN b THEN f(g(1, 2), 3) ELSE CASE c WHEN 1 THEN 2 END END FROM t",
+		"WITH c AS (SELECT a FROM t WHERE a IN (SELECT b FROM u)), d AS (SELECT 1 UNION SELECT 2) SELECT * FROM c UNION ALL SELECT * FROM d EXCEPT SELECT 3",
+		"SELECT a FROM t JOIN u ON t.a = u.a AND u.b IN (SELECT 1) WHERE t.c LIKE 'x' OR NOT (t.d BETWEEN 1 AND 2) ORDER BY (SELECT 1) LIMIT 3",
+		"INSERT INTO t (a, b) SELECT a, (SELECT MAX(b) FROM u) FROM v WHERE a NOT IN (SELECT 1)",
+		"UPDATE t SET a = (SELECT 1), b = CASE WHEN c THEN 1 ELSE 2 END WHERE d IN (1, 2, 3)",
+	}, builtinCorpus...)
+	if len(nesting) > c.n(90, 100000) {
+		nesting = nesting[:c.n(90, 100000)]
+	}
+	for _, sql := range nesting {
+		ref := &pollCtx{Context: context.Background(), k: -1}
+		if _, err := gosqlx.ParseWithContext(ref, sql); err != nil {
+			continue
+		}
+		for k := 0; k < ref.n && k < 200; k++ {
+			for _, cause := range []error{context.Canceled, context.DeadlineExceeded} {
+				ctx := &pollCtx{Context: context.Background(), k: k, err: cause}
+				_, err := gosqlx.ParseWithContext(ctx, sql)
+				res.count(fmt.Sprintf("cancel|%s|%d|%v", sql, k, cause), true)
+				if err != nil && ctx.fired && !errors.Is(err, cause) {
+					res.fail("cause-unreachable:cancellation", "the context's error is not reachable with errors.Is from the error of a cancelled call",
+						map[string]any{"sql": sql, "poll": k, "cause": cause.Error()}, err.Error())
+				}
 			}
 		}
 	}
